@@ -308,4 +308,62 @@ theorem c05_agree_value {δ : Type} [DecidableEq δ] (obs : List δ) (d : δ) (h
 example : agree [3, 3, 3] = some 3 := by decide
 example : agree [3, 4, 3] = none := by decide
 
+/-! ### Orders fixed by the sources: import lists and named arguments -/
+
+/-- **Import lists** (clause "byte-identical containers … identical variable states", mechanism
+"first match wins over the USING list").  `collect_using_directives` returns the imports of the
+scope chain in source order; a clean-up of repeated imports that uses its hash set through
+`get`/`insert` only (the interner's loop: keep the first occurrence) leaves every first-match
+lookup unchanged, under every layout of the set, for every scope chain and every declaration
+predicate. -/
+theorem c05_using_dedup_order_free {σ : Type} [DecidableEq σ] (L : Layout σ Nat)
+    (chain : List (List σ)) (declares : σ → Bool) :
+    resolveUsing declares (exec L (internAllP [] (collectUsing chain))).2 =
+      resolveUsing declares (collectUsing chain) := by
+  rw [(c05_intern_order_free L (collectUsing chain)).1]
+  exact find?_dedupFirstSeen declares (collectUsing chain)
+
+example : resolveUsing (fun n => n = 2 || n = 3) (collectUsing [[3, 2], [1], [3]]) = some 3 := by decide
+
+/-- **Sharpness**: rebuilding the import list from the set (`set.into_iter().collect()`) exposes the
+set's internal order to the first-match lookups: with a namespace imported twice on the chain and
+two imported namespaces declaring the name, two layouts resolve the name differently. -/
+theorem c05_using_rebuild_exposes_order :
+    ∃ (L₁ L₂ : Layout Nat Nat) (chain : List (List Nat)) (declares : Nat → Bool),
+      resolveUsing declares (runI L₁ (dedupUsingIterP (collectUsing chain)) Heap.empty) ≠
+        resolveUsing declares (runI L₂ (dedupUsingIterP (collectUsing chain)) Heap.empty) :=
+  ⟨Layout.keep, Layout.flip, [[1, 2], [1]], fun _ => true, by decide⟩
+
+/-- **Named arguments** (clause "identical variable states, outputs, faults").  A formal call that
+evaluates its arguments in the order in which they are written and files the values in a slot table
+that is only inserted into and looked up returns the same values, the same fault and the same
+state under every layout of that table (two processes `r1`, `r2`). -/
+theorem c05_named_args_order_free {σ ε ν : Type} (L₁ L₂ : Layout Nat ν) (count : Nat)
+    (args : List (NArg σ ε ν)) (s : σ) :
+    exec L₁ (bindNamedArgsP count args s) = exec L₂ (bindNamedArgsP count args s) :=
+  c05_lookup_only_pair L₁ L₂ _
+
+/-- … and the state it leaves is the composition of the arguments' side effects in WRITTEN order,
+up to and including the first argument that faults. -/
+theorem c05_named_args_effects_in_written_order {σ ε ν : Type} (L : Layout Nat ν) (count : Nat)
+    (args : List (NArg σ ε ν)) (s : σ) :
+    (exec L (bindNamedArgsP count args s)).2 = effectsInWrittenOrder args s := by
+  rw [c05_lookup_only L]
+  exact den_bindNamedArgsP_state count args s AMap.empty
+
+example :
+    (exec (Layout.flip : Layout Nat Nat)
+      (bindNamedArgsP (ε := Unit) 2
+        [⟨1, fun log => (.ok 7, log * 10 + 2)⟩, ⟨0, fun log => (.ok 8, log * 10 + 1)⟩] 0)) =
+      (.ok [some 8, some 7], 21) := by rfl
+
+/-- **Sharpness**: filing the arguments first and evaluating them while iterating the slot table
+exposes the table's order in the variable states (the log of side effects differs between two
+layouts). -/
+theorem c05_named_args_iter_exposes_order :
+    ∃ (L₁ L₂ : Layout Nat Nat) (args : List (Nat × Nat)),
+      runI L₁ (evalArgsIterP (fun d log => log * 10 + d) args 0) Heap.empty ≠
+        runI L₂ (evalArgsIterP (fun d log => log * 10 + d) args 0) Heap.empty :=
+  ⟨Layout.keep, Layout.flip, [(0, 1), (1, 2)], by decide⟩
+
 end TrustVerif.C05
